@@ -123,6 +123,49 @@ def write_multi_lemma(fc):
     return lemma
 
 
+def wire_write_lemma(fc):
+    """the same statement from the wire: a write request as the server decoder makes it of the PDU bytes (register words and coil bits as
+    they stand on the wire, top bit included) leaves exactly those values in exactly those cells.  decode is replaced by its contract,
+    which is verified against the real decode in this check (contract/...decode units)"""
+    from spec import pdu as P
+    from . import codec_contracts as K
+    t = S.TABLE_OF_FC[fc]
+
+    def lemma(E):
+        ctx = S.slave_context(E, layout='seq')
+        head = E.bytes_n('head', 5)
+        a, q, bc = P.u16_at(head, 0), P.u16_at(head, 2), L.at(head, 4)
+        data = E.bytes('data', 1, 246)
+        E.assume(L.And(L.length(data) == bc, bc == (2 * q if fc == 16 else (q + 7) // 8), q >= 1))
+        dec = E.new('pymodbus.factory.ServerDecoder')
+        req = E.method(dec, 'decode', E.as_bytes(L.concat([fc], head, data)))
+        before = E.clone(ctx)
+        resp = E.method(req, 'execute', ctx)
+        if normal(E, resp, fc):
+            want = (lambda j: P.u16_at(data, 2 * j)) if fc == 16 else (lambda j: ((L.at(data, j // 8) // (2 ** (j % 8))) % 2) == 1)
+            E.prove('wire:the-cells-hold-the-values-that-stood-on-the-wire', table_updated(ctx, before, t, a, q, want, E))
+            E.cover('normal')
+    return lemma
+
+
+def wire_write_twin(g):
+    """well-formed FC 16 PDUs with register words from the whole 16-bit range (boundary values 0x7FFF / 0x8000 / 0xFFFF favoured)"""
+    r = g.r
+    q = r.choice([1, 2, 3, 8])
+    a = r.randrange(0, 10)
+    words = [r.choice([0, 1, 0x7FFF, 0x8000, 0xFFFF, r.randrange(65536)]) for _ in range(q)]
+    data = []
+    for w in words:
+        data += [w >> 8, w & 255]
+    out = {'data': {'items': data}}
+    for k, b in enumerate([0, a, 0, q, 2 * q]):
+        out['head[%d]' % k] = b
+    for t in 'dcih':
+        out['ctx_%s_addr' % t] = r.choice([0, 1])
+        out['ctx_%s_vals' % t] = {'items': [(r.random() < 0.5) if t in 'dc' else r.randrange(65536) for _ in range(30)]}
+    return out
+
+
 def mask_write_lemma(E):
     ctx = S.slave_context(E, layout=E.choice('layout', S.LAYOUTS + ('shared',)))
     a, am, om = E.int('address', 0, 65536), E.int('and_mask', 0, 65536), E.int('or_mask', 0, 65536)
@@ -207,6 +250,10 @@ def get_units():
         us.append(Unit('C04/fc%02d.write_single' % fc, write_single_lemma(fc), ['C04'], contracts=CONTRACTS, functions=[M.REQ[fc] + '.execute']))
     for fc in (15, 16):
         us.append(Unit('C04/fc%02d.write_multiple' % fc, write_multi_lemma(fc), ['C04'], contracts=CONTRACTS, functions=[M.REQ[fc] + '.execute']))
+    from . import codec_contracts as K
+    us.append(Unit('C04/fc16.from-the-wire', wire_write_lemma(16), ['C04'], contracts=CONTRACTS + (K.WMRegsDecode(),), twin=wire_write_twin,
+                   functions=[M.REQ[16] + '.decode', M.REQ[16] + '.execute']))
+    us.append(K.WMRegsDecode().unit())
     us.append(Unit('C04/fc22.mask_write', mask_write_lemma, ['C04'], contracts=CONTRACTS, functions=[M.REQ[22] + '.execute']))
     us.append(Unit('C04/fc23.read_write_multiple', rwm_lemma, ['C04'], contracts=CONTRACTS, functions=[M.REQ[23] + '.execute']))
     us.append(Unit('C04/table_map', table_map, ['C04'], functions=['pymodbus.interfaces.IModbusSlaveContext.decode']))
